@@ -18,7 +18,7 @@ from .. import dfengine as E
 PID = 'C06'
 LEVEL = 'exploration'
 RULE = ('tables of 2-16 rows (x dyadic floats, y small ints, g/h few keys, RangeIndex or 1 s DatetimeIndex; input '
-        'classes NaN-free / NaNs in x) x 3 random compositions into <= 12 batches (empty first/middle/last, '
+        'classes NaN-free / NaNs in x) x 3 random compositions into <= 13 batches (empty first/middle/last, '
         'singletons, unsplit, filter-emptied) x sampled operations: {sum,count,size,mean,var,std,value_counts} on '
         'Series/DataFrame/streaming-Series source, expanding().var/std, groupby {sum,count,size,mean,var,std} x '
         '{column, column list, streaming series} x {Series, DataFrame} selections, random expression trees; example '
@@ -40,7 +40,7 @@ def plan(tier):
 
 
 def n_tables(tier):
-    return 90 if tier == "thorough" else 14
+    return 60 if tier == "thorough" else 14
 
 
 # ---- operation universe ----------------------------------------------------
